@@ -985,6 +985,11 @@ fn group_to_fields(
 /// See https://github.com/anweiss/cddl/issues/640
 fn deduplicate_field_names(fields: &mut [RustField]) {
   let mut seen: std::collections::HashMap<String, usize> = std::collections::HashMap::new();
+  // Names already taken, so that a generated `entries_1` cannot collide with a
+  // field that is literally called `entries_1` (e.g. one that was de-duplicated
+  // in a nested group choice before being merged into this one).
+  let mut used: std::collections::HashSet<String> =
+    fields.iter().map(|f| f.name.clone()).collect();
 
   for field in fields.iter_mut() {
     let base = field.name.clone();
@@ -992,7 +997,12 @@ fn deduplicate_field_names(fields: &mut [RustField]) {
     *count += 1;
 
     if *count > 1 {
-      let unique = format!("{}_{}", base, *count - 1);
+      let mut unique = format!("{}_{}", base, *count - 1);
+      while used.contains(&unique) {
+        *count += 1;
+        unique = format!("{}_{}", base, *count - 1);
+      }
+      used.insert(unique.clone());
       if field.original_name == base {
         field.original_name = unique.clone();
       }
